@@ -60,6 +60,7 @@ inductive Err
   | userNeither             -- "gate is neither function nor operator"
   | unknownGate             -- `get_compact_qobj`: NotImplementedError (unknown name / GLOBALPHASE)
   | measurement             -- `propagators`: TypeError "Cannot compute the propagator of a measurement operator"
+  | controlValue            -- ValueError: a fixed-matrix gate given a `control_value` other than "all controls 1"
   | fuel                    -- (model only) recursion budget exhausted; never happens with fuel ≥ length
 deriving DecidableEq, Repr
 
@@ -448,6 +449,16 @@ structure GateReq (A : Type) where
   /-- `gate.controls is None` -/
   controlsNone : Bool
   arg : A
+  /-- `gate.control_value` (`none`: not given) -/
+  controlValue : Option Nat := none
+
+/-- `Gate._check_fixed_control_value`: the matrix of a library gate is fixed — it acts on the targets when all the
+control qubits are 1; an explicit `control_value` is accepted only if the gate has controls and the value is the
+all-ones mask `2 ** len(controls) - 1` (the legal redundant value) -/
+def GateReq.fixedControlOK {A : Type} (r : GateReq A) : Bool :=
+  match r.controlValue with
+  | none => true
+  | some v => !r.controlsNone && !r.controls.isEmpty && v == 2 ^ r.controls.length - 1
 
 /-- `Gate.get_all_qubits`: `controls + targets` if `controls is not None`, else `targets` -/
 def GateReq.allQubits {A : Type} (r : GateReq A) : List Nat :=
@@ -475,6 +486,8 @@ def resolveGate {A : Type} (lib : Library A α) (ug : List (UserGate A α)) (r :
   match getGateUnitary (ug.map fun u => (u.name, u.kind)) r.name r.controlsNone with
   | .error e => .error e
   | .ok .library =>
+    -- the library refuses a control value it has no matrix for (checked before the name is dispatched)
+    if !r.fixedControlOK then .error .controlValue else
     match lib.compact r.name r.arg with
     | some (m, U) => .ok (.gate r.allQubits m U)
     | none => .error .unknownGate
